@@ -34,7 +34,16 @@ def chunksKept (bounds : List Int) (nKept : Nat) : List Int :=
 /-- `_times_in_chunks` for one time -/
 def timeInChunks (kept : List Int) (t : Int) : Bool := (Np.ssRight kept t) % 2 == 1
 
-/-- spike ids of cluster `c`, increasing (`get_spikes_per_cluster`) -/
+/-- spike ids of cluster `c`, increasing (`get_spikes_per_cluster`).
+The real selector is handed a CALLABLE; the model fixes it to "the members of the cluster in the cluster vector", the
+property quantifies over spike-time / cluster VECTORS.  What the callable must return is fixed by how
+`SpikeSelector.__call__` uses it (array.py:423-430: `self.spike_times[spike_ids]`, then `spike_ids[mask]` with a
+boolean mask, then `np.intersect1d`): a one-dimensional NumPy INTEGER array — for an unknown cluster an EMPTY one,
+which is what both callers in the repository pass (`model.py:1422`, `test_array.py`:
+`spt.get(cl, np.array([], dtype=np.int64))`).  A callable answering with a Python list (`dict.get(c, [])`) breaks that
+contract: `[][mask]` raises TypeError when `subset_chunks=True` (ran it).  That is outside the property (the list is
+not a cluster vector's answer), the check does not generate it.  Any integer dtype is inside: the check hands out
+int64 / int32 / uint32 / intp arrays. -/
 def spikesOf (clusters : List Nat) (c : Nat) : List Nat :=
   (List.range clusters.length).filter fun i => clusters.getD i 0 == c
 
